@@ -398,7 +398,7 @@ func genLargeCharCfg(r *Rng) CharCfg {
 	c := genCharCfg(r, charOpt{maxLen: 24, maxReq: 3, noEmptied: r.Chance(0.7)})
 	c.Length = pick(r, []int{4, 8, 8, 16, 32, 64, 100, 127, 128, 129, 150, 200, 256, 300})
 	if r.Chance(0.01) {
-		c.Length = pick(r, []int{32767, 32768, 40000, 70000})
+		c.Length = pick(r, []int{32767, 32768, 33000, 40000})
 	}
 	switch r.Intn(4) {
 	case 0:
